@@ -139,6 +139,39 @@ sys.exit(1 if bad else 0)
 '''
 
 
+REPLAY_TWINS = '''
+from vlib import build
+import os, sys, tempfile, shutil
+drf = build.load_pkg()
+from digital_rf import ringbuffer as RB
+kw = %r
+top = tempfile.mkdtemp()
+rel = ['ch0/2020-01-01T00-00-00/rf@10.000.h5', 'ch0/2020-01-01T01-00-00/rf@10.000.h5', 'ch0/2020-01-01T00-00-00/rf@9.000.h5', 'ch0/2020-01-01T01-00-00/rf@12.000.h5']
+paths = [os.path.join(top, r) for r in rel]
+for p in paths: os.makedirs(os.path.dirname(p), exist_ok=True)
+h = RB.DigitalRFRingbufferHandler(size=kw.get('size', 300))
+bad = 0
+ops = [(kw.get('k%%d' %% i, 0), kw.get('f%%d' %% i, 0), kw.get('s1', 10) if i %% 2 else kw.get('s2', 10)) for i in (1, 2, 3, 4)]      # k1 = k2 = 0 (adds)
+for (k, f, s) in ops:
+    p = paths[min(f, 3)]
+    try:
+        if k in (0, 1):
+            open(p, 'wb').write(b'x' * s); (h.add_files if k == 0 else h.modify_files)([p])
+        else:
+            if os.path.exists(p): os.remove(p)
+            h.remove_files([p])
+    except Exception as e:
+        print('notification', (k, f, s), 'raised', type(e).__name__, e); bad = 1; break
+    tracked = sorted(h.records); inq = sorted(pp for q in h.queues.values() for (_k, pp) in q)
+    on_disk = sorted(pp for pp in paths if os.path.exists(pp)); truth = sum(os.path.getsize(pp) for pp in on_disk)
+    if inq != tracked: print('after', (k, f, s), 'queues hold', [os.path.relpath(x, top) for x in inq], 'records hold', [os.path.relpath(x, top) for x in tracked]); bad = 1
+    if any(pp not in on_disk for pp in tracked): print('tracked file missing on disk'); bad = 1
+    if h.active_size != sum(os.path.getsize(pp) for pp in tracked if os.path.exists(pp)): print('active_size', h.active_size, 'bytes of tracked files', truth); bad = 1
+shutil.rmtree(top)
+sys.exit(1 if bad else 0)
+'''
+
+
 def main(tier):
     rep = common.Report('C16', tier, 'model_checking', functions=FUNCS)
     st = smt.Stats()
@@ -173,11 +206,12 @@ def main(tier):
               '_hist_moved_size': 'size limit: same with symbolic sizes',
               '_verify_count': 'count limit: re-verification after an observer restart (any set tracked before, any set on disk now): afterwards the books equal the files on disk, nothing is deleted unless the files on disk exceed the limit',
               '_verify_size': 'size limit: same, with files that changed size unnoticed (tracked sizes stale): nothing is deleted on the basis of stale sizes, tracked sizes are the current ones afterwards',
+              '_hist_twins': 'size limit: two reports, any notification, one more report over files two of which share a time key under different paths (same name in two subdirectories): books == truth by path after every notification, nothing deleted within the limit',
               '_ring_witness': 'reachability: a deletion is reachable'}
     replays = {'_hist2_count': lambda kw: REPLAY % (kw, ['count'], []), '_hist2_duration': lambda kw: REPLAY % (kw, ['duration'], []),
                '_hist2_size': lambda kw: REPLAY % (kw, ['size'], []),
                '_hist_moved': lambda kw: REPLAY_MOVED % (kw,), '_hist_moved_size': lambda kw: REPLAY_MOVED % (kw,),
-               '_verify_count': lambda kw: REPLAY_VERIFY % (kw,), '_verify_size': lambda kw: REPLAY_VERIFY % (kw,)}
+               '_verify_count': lambda kw: REPLAY_VERIFY % (kw,), '_verify_size': lambda kw: REPLAY_VERIFY % (kw,), '_hist_twins': lambda kw: REPLAY_TWINS % (kw,)}
     for k3 in range(3):
         for f3 in range(4):
             nm = '_hist3_all_%d_%d' % (k3, f3)
